@@ -101,6 +101,28 @@ def rules(facts):
             t2.examined((tr, "checked"), True, {"op": sym, "machine_ints_checked_with_big_fallback": ok})
             if not ok:
                 t2.violate(f"{tr}/checked", f"machine integers are not combined with checked_{tr.lower()} and a big-integer fallback", where=fn["sp"])
+    # every arm computes from both operands (no arm returns one operand unchanged or ignores the other)
+    for tr, sym in OPS.items():
+        fn = facts.hir_fn(f"<{NUM} as core::ops::arith::{tr}>::{tr.lower()}")
+        m = top_match(fn) if fn else None
+        if m is None:
+            continue
+        for a in m["arms"]:
+            alts = a["pat"]["pats"] if a["pat"]["k"] == "Or" else [a["pat"]]
+            used = {n["path"]["id"] for n in find(a["body"], lambda n: n.get("k") == "Path" and "local" in n["path"])}
+            ok = True
+            for alt in alts:
+                if alt["k"] != "Tuple" or len(alt["pats"]) != 2:
+                    continue
+                for side in alt["pats"]:
+                    ids = {b["id"] for b in find(side, lambda n: n.get("k") == "Bind")}
+                    has_payload = side["k"] in ("Bind",) or bool(ids)
+                    if not ids or not (ids & used):
+                        ok = False
+            lit_pat = bool(find(a["pat"], lambda n: n.get("k") == "Lit"))
+            t2.examined((tr, "operands-used", a["sp"]), True)
+            if not ok or lit_pat:
+                t2.violate(f"{tr}/operand-ignored", f"an arm of `{sym}` on numbers " + ("special-cases a literal operand value" if lit_pat else "does not use both operands") + ": the result would not be the arithmetic result for every value of the ignored operand", where=a["sp"])
     out.append(t2.finish())
 
     # ---------------- T9.3 operator dispatch on values
